@@ -238,7 +238,7 @@ class Gen:
                     # the only handle is dropped at once (a stale table entry stays behind) and the key is requested again
                     L.append(f"drop {n}"); self.dropped.add(n)
                     if r.random() < 0.3: L.append("gc")
-                    n2 = self.fresh("s"); L.append(f"route {n2} {rn} {key}"); self.add_stream(n2, self.t(s)); self.ident[n2] = f"route:{rn}:{key}:again"
+                    n2 = self.fresh("s"); L.append(f"route {n2} {rn} {key}"); self.add_stream(n2, self.t(s)); self.ident[n2] = f"route:{rn}:{key}"      # (if another handle of that key is still alive it is the very same stream)
                 elif r.random() < self.p.get("routelate", 0.0):
                     # the only handle is dropped and the key is requested again later, from inside a handler of another route
                     L.append(f"drop {n}"); self.dropped.add(n)
